@@ -26,7 +26,13 @@ func (s *Service) openManyPeers(
 	ctx context.Context,
 	cfg Config,
 	targets map[node.Key][]keyAuthority,
-) (confluence.Sink[Request], []*freightfluence.Receiver[Response], []address.Address, error) {
+) (
+	confluence.Sink[Request],
+	[]*freightfluence.Receiver[Response],
+	[]address.Address,
+	map[address.Address]freighter.StreamSenderCloser[Request],
+	error,
+) {
 	var (
 		receivers         = make([]*freightfluence.Receiver[Response], 0, len(targets))
 		addrMap           = make(proxy.AddressMap)
@@ -38,19 +44,19 @@ func (s *Service) openManyPeers(
 	for nodeKey, keys := range targets {
 		target, err := s.cfg.HostResolver.Resolve(nodeKey)
 		if err != nil {
-			return sender, receivers, receiverAddresses, s.closePeerClients(senders, err)
+			return sender, receivers, receiverAddresses, nil, s.closePeerClients(senders, err)
 		}
 		addrMap[nodeKey] = target
 		client, err := s.openPeerClient(ctx, target, cfg.setKeyAuthorities(keys))
 		if err != nil {
-			return sender, receivers, receiverAddresses, s.closePeerClients(senders, err)
+			return sender, receivers, receiverAddresses, nil, s.closePeerClients(senders, err)
 		}
 		senders[target] = client
 		receivers = append(receivers, &freightfluence.Receiver[Response]{Receiver: client})
 		receiverAddresses = append(receiverAddresses, address.Address("receiver-"+strconv.Itoa(int(nodeKey))))
 	}
 
-	return sender, receivers, receiverAddresses, nil
+	return sender, receivers, receiverAddresses, senders, nil
 }
 
 func (s *Service) closePeerClients(
